@@ -490,7 +490,9 @@ are told alive/dead, a penalty change, a policy switch.  This is exactly what th
 /-- **Every history of positive samples, reports, penalty changes and policy switches keeps the
 full tolerance invariant** — no `mono` hypothesis: it is a consequence (`measurement_once_always…`
 composed along the history).  Hypotheses: events name members; latency samples are positive
-durations (≥ 1 ns).  Hence `select_min_is_unbeaten_partial`, `min_policy_returns_unbeaten_alive_partial`
+durations (≥ 1 ns) — that is the *domain* of a latency sample (`time.Since` of a round trip), not a
+restriction of the property's quantifier, hence no `_partial` suffix (a 0 ns sample under
+`min_moving_avg` really does break the invariant).  Hence `select_min_is_unbeaten_partial`, `min_policy_returns_unbeaten_alive_partial`
 and the set-level tolerance bound apply to every such world; what lies outside is only a restore of
 an emptier health snapshot (reload) or a 0 ns sample under `min_moving_avg`. -/
 theorem tolerance_invariant_all_sample_histories (n : Nat) (tol : Int) (offs : Nat → Int) (p : Policy)
@@ -507,6 +509,92 @@ example : WHistOk 2 [.sample 2 0 100, .sample 2 1 60] ∧
   constructor
   · simp [WHistOk]
   · decide
+
+/-! ## F. reload hand-over
+
+`ControlPlane.InheritDialerHealthFrom` = for each group: `CaptureReloadSelectionFallback`
+(`captureFallback`), then `RestoreHealthSnapshot` on every matched member (world event `restore`:
+the six collections and flags of the dialer are replaced, every set is told, in collection-slot
+order), then `EnsureReloadSelectionFloor` (`floorW`: an existing, empty set gets the recorded
+fallback — or `Dialers[0]` — marked alive, i.e. told alive *without* a new latency). -/
+
+/-- **Every full-strength selection invariant survives a reload, unconditionally.** After any world
+history — samples (any value), reports, penalty changes, policy switches and `restore`s of arbitrary
+snapshots, members only — followed by `EnsureReloadSelectionFloor` with any member fallbacks: the
+sets agree with the members' alive flags, a selection answers as `select_family_order` says, and
+"no alive dialer" is reported exactly when no consulted domain has a selectable node. -/
+theorem selection_invariants_survive_reload (n : Nat) (tol : Int) (offs : Nat → Int) (p : Policy)
+    (fi : Int) (alive0 : Nat → Nat → Bool) (colls0 : Nat → Nat → Coll) (pens0 : Nat → Nat → Int)
+    (h : List WEv) (hm : ∀ e ∈ h, WMem n e) (fb : Nat → Option Nat) (hfb : ∀ t d, fb t = some d → d < n) :
+    let g := (floorW (runW (worldNew n tol offs p fi alive0 colls0 pens0) h) fb).1.g
+    (g.hasSets = true → ∀ t, t < 6 → ∀ d, d < g.n → (g.sets t).isAlive d = g.alive t d) ∧
+    (g.policy ≠ .fixed → ∀ (rnd : Nat → Nat → Nat → Nat) (t : NetType) (strict : Bool) (excl : Option Nat) (x : SelOk),
+      select rnd g t strict excl = .ok x →
+      (∃ ty ∈ chain t g.policy, Admitted g excl ty x) ∨
+      (strict = false ∧ (∀ ty ∈ chain t g.policy, ∀ e ∈ (g.sets ty.index).entries, excl = some e.d) ∧
+        ∃ ty ∈ chain t.flip g.policy, Admitted g excl ty x) ∨
+      (strict = true ∧ g.n = 1 ∧ x = ⟨0, dialTimeout, (preferAlt g 0 t).index⟩ ∧
+        ∀ ty ∈ chain t g.policy, ∀ e ∈ (g.sets ty.index).entries, excl = some e.d)) ∧
+    (g.policy ≠ .fixed → ∀ (rnd : Nat → Nat → Nat → Nat) (t : NetType) (strict : Bool) (excl : Option Nat),
+      (select rnd g t strict excl = .error .noAlive ↔
+        g.n ≠ 0 ∧ ¬ (strict = true ∧ g.n = 1) ∧
+        ∀ ty ∈ tried g t strict, ∀ e ∈ (g.sets ty.index).entries, excl = some e.d)) := by
+  intro g
+  have hw := wm_floor (wm_run h _ (wm_new n tol offs p fi alive0 colls0 pens0) hm) fb hfb
+  have hbi := fun ty => (hw.gm.sets ty).1.bestIn
+  exact ⟨hw.agree, fun hp rnd t strict excl x hs => select_ok_full hp hbi hs,
+    fun hp rnd t strict excl => select_noAlive_iff hp hbi⟩
+
+/-- the fallback `CaptureReloadSelectionFallback` records is a member (so `EnsureReloadSelectionFloor`
+never marks a foreign dialer) -/
+theorem captured_fallback_is_a_member (n : Nat) (tol : Int) (offs : Nat → Int) (p : Policy)
+    (fi : Int) (alive0 : Nat → Nat → Bool) (colls0 : Nat → Nat → Coll) (pens0 : Nat → Nat → Int)
+    (h : List WEv) (hm : ∀ e ∈ h, WMem n e) (rnd : Nat → Nat → Nat → Nat → Nat) (t d : Nat) :
+    let w := runW (worldNew n tol offs p fi alive0 colls0 pens0) h
+    w.g.policy ≠ .fixed → captureFallback rnd w.g t = some d → d < n := by
+  intro w hp hc
+  exact captureFallback_lt (wm_run h _ (wm_new n tol offs p fi alive0 colls0 pens0) hm) rnd hp t d hc
+
+/-- **Which part of the tolerance invariant survives a reload.** The full invariant `GInv`
+(tolerance bound, switch rule, "unbeaten" selections) holds after every world history in which
+each `restore` satisfies `RestoreOk` *in the state where it happens*: wherever a set has recorded a
+latency for the dialer (under the group's policy), the restored collection still has one — followed
+by `EnsureReloadSelectionFloor`.  `RestoreOk` is automatic for a fresh generation
+(`restore_onto_unrecorded_dialer_is_ok`: no set has recorded anything for the dialer yet — the
+production order, where `RestoreHealthSnapshot` runs right after `NewDialerGroup`), and
+`EnsureReloadSelectionFloor` never breaks it (alive without a latency is told only with the
+dialer's *current* snapshot).  `_partial`: `RestoreOk`; without it see the witness below. -/
+theorem tolerance_invariant_survives_reload_partial (n : Nat) (tol : Int) (offs : Nat → Int) (p : Policy)
+    (fi : Int) (alive0 : Nat → Nat → Bool) (colls0 : Nat → Nat → Coll) (pens0 : Nat → Nat → Int)
+    (h : List WEv) (hok : WOk n (worldNew n tol offs p fi alive0 colls0 pens0) h)
+    (fb : Nat → Option Nat) (hfb : ∀ t d, fb t = some d → d < n) :
+    GInv (floorW (runW (worldNew n tol offs p fi alive0 colls0 pens0) h) fb).1.g :=
+  (winv_floor (winv_runOk h _ (winv_new n tol offs p fi alive0 colls0 pens0) hok) fb hfb).ginv
+
+theorem restore_onto_unrecorded_dialer_is_ok (w : World) (d : Nat) (cs : Nat → Coll)
+    (h : ∀ t, t < 6 → (w.g.sets t).lat d = none) : RestoreOk w d cs :=
+  restoreOk_of_unrecorded w d cs h
+
+-- witness that `RestoreOk` is needed: node 0 measured 100 (choice), node 1 measured 10 then dead;
+-- node 1 is restored from an *emptier* snapshot (alive, no latencies): it rejoins with sorting latency
+-- 0 while the set still holds its recorded latency 10 — a "measured" alive node that beats the
+-- choice's 100 by more than the tolerance 30, and no switch happened.
+example :
+    let w := runW (worldNew 2 30 (fun _ => 0) .minLast 0 (fun _ _ => true) (fun _ _ => Coll.empty) (fun _ _ => 0))
+      [.sample 2 0 100, .sample 2 1 10, .told 2 1 false, .sample 2 0 100,
+       .restore 1 (fun _ => Coll.empty) (fun _ => true)]
+    (w.g.sets 2).minD = some 0 ∧ (w.g.sets 2).minL = 100 ∧
+    (w.g.sets 2).entries = [⟨0, 100⟩, ⟨1, 0⟩] ∧ (w.g.sets 2).lat 1 = some 10 := by decide
+
+-- non-vacuity of the positive case: a fresh two-node generation inherits (node 0: tcp4 alive with
+-- latencies 40, 50; node 1: everything dead), then the floor; hypotheses hold, node 0 is selected.
+example :
+    let w0 := worldNew 2 30 (fun _ => 0) .minLast 0 (fun _ _ => true) (fun _ _ => Coll.empty) (fun _ _ => 0)
+    let h : List WEv := [.restore 0 (fun _ => ⟨[40, 50], 45⟩) (fun _ => true), .restore 1 (fun _ => Coll.empty) (fun _ => false)]
+    WOk 2 w0 h ∧
+    (select (fun _ _ _ => 0) (floorW (runW w0 h) (fun _ => some 0)).1.g ⟨false, false, false, .unset⟩ true none).toOption
+      = some ⟨0, 50, 2⟩ := by
+  refine ⟨⟨⟨by decide, restoreOk_of_unrecorded _ _ _ (by decide)⟩, ⟨by decide, restoreOk_of_unrecorded _ _ _ (by decide)⟩, trivial⟩, by decide⟩
 
 /-- **`chooseProxyDialer`'s selection** (retry the other family, non-strict, on "no alive"): the
 answer is an answer of one of the two `SelectWithExclusionResult` calls, so everything above
